@@ -40,7 +40,7 @@ func instrumentSpinlock(src, dst string) error {
 		}
 		recv := fd.Recv.List[0].Names[0].Name
 		stmt := &ast.DeferStmt{Call: &ast.CallExpr{
-			Fun: ast.NewIdent("verifRaceAcquire"),
+			Fun:  ast.NewIdent("verifRaceAcquire"),
 			Args: []ast.Expr{&ast.UnaryExpr{Op: token.AND, X: &ast.SelectorExpr{X: ast.NewIdent(recv), Sel: ast.NewIdent("state")}}},
 		}}
 		fd.Body.List = append([]ast.Stmt{stmt}, fd.Body.List...)
